@@ -163,7 +163,7 @@ func execFramesD(desc string) string {
 		res := "skip"
 		// the socket has no more datagrams after the scripted ones: a read deadline turns the
 		// blocking read into the timeout error the library treats as non-fatal
-		se.SetReadDeadline(time.Now().Add(30 * time.Millisecond))
+		se.SetReadDeadline(time.Now().Add(3 * time.Millisecond))
 		err, pan, stalled := guarded(func() error {
 			switch op {
 			case "H":
@@ -340,6 +340,13 @@ func genFrames(o hx.Opts, emit func(string)) {
 	}
 	emit("fn=frames stack=tlcp hv=1 seg=0.511.512 ops=H,H wire=" + hx.Hex(append(bw, shd...)))
 	emit("fn=frames stack=tlcp hv=1 seg=0.511.512 ops=H wire=" + hx.Hex(rec5(22, []byte{11, 1, 0, 1}))) // 65537: too long
+	// a message that announces 100000 bytes and delivers them: refused at its header
+	huge := hsMsg(11, r.Bytes(100000))
+	var hw []byte
+	for off := 0; off < len(huge); off += 16384 {
+		hw = append(hw, rec5(22, huge[off:min(off+16384, len(huge))])...)
+	}
+	emit("fn=frames stack=tlcp hv=1 seg=0.511.512 ops=H,R,R,R,R,R,R wire=" + hx.Hex(hw))
 	n := 1500 * o.Scale
 	if o.Tier == "thorough" {
 		n = 150000 * o.Scale
